@@ -148,6 +148,7 @@ def gen(rng, tier, idx):
         scn["stdin_fault"] = f
     scn["verbose"] = rng.chance(6)
     scn["debug"] = []
+    scn["opt_order"] = rng.below(1 << 30)         # the two runs give the options in different (seeded) orders
     return scn
 
 
@@ -174,6 +175,10 @@ def shrink_extra(scn, still, budget):
     return out
 
 
+def hash_cfg(cfg):
+    return sum(ord(c) for c in (cfg["in"] + cfg["out"] + ",".join(cfg.get("debug", []))))
+
+
 def world_for(scn, cfg, stdin_fault=None, verbose=False):
     s2 = dict(scn)
     opts = list(scn.get("opts", []))
@@ -184,6 +189,9 @@ def world_for(scn, cfg, stdin_fault=None, verbose=False):
         opts.append("--debug=" + ",".join(cfg["debug"]))
     if verbose:
         opts.append("--verbose")
+    if scn.get("opt_order") is not None:
+        from .prng import Rng
+        Rng(scn["opt_order"] ^ (len(opts) * 2654435761) ^ (1 if cfg.get("quiet") else 0) ^ (hash_cfg(cfg))).shuffle(opts)
     s2["opts"] = opts
     pipe_in = cfg["in"] != "tty"
     s2["tty"] = [0 if cfg["in"] == "pipe" else 1, 0 if cfg["out"] == "pipe" else 1]
